@@ -18,9 +18,10 @@ const (
 	KDir Kind = iota
 	KFile
 	KLink
+	KFifo // a named pipe: only ever produced by damage, never part of a build
 )
 
-func (k Kind) String() string { return [...]string{"dir", "file", "symlink"}[k] }
+func (k Kind) String() string { return [...]string{"dir", "file", "symlink", "fifo"}[k] }
 
 // Entry is one node of the independent directory model.
 type Entry struct {
@@ -28,6 +29,9 @@ type Entry struct {
 	Data []byte // files
 	Dest string // symlinks
 	Exec bool   // files: executable bit (not compared by Equal)
+	// files: materialized as a hard link to this other file of the tree (Data is that file's
+	// content); only ever produced by damage
+	HardTo string
 }
 
 // Tree maps slash-separated relative paths to entries. Parents of every entry are present as
@@ -133,6 +137,29 @@ func (t Tree) Materialize(dir string) error {
 			if err := os.Symlink(e.Dest, full); err != nil {
 				return err
 			}
+		case KFifo:
+			if err := os.MkdirAll(filepath.Dir(full), 0o755); err != nil {
+				return err
+			}
+			if err := syscall.Mkfifo(full, 0o644); err != nil {
+				return err
+			}
+		}
+	}
+	for _, p := range ps {
+		e := t[p]
+		if e.Kind != KFile || e.HardTo == "" {
+			continue
+		}
+		if te, ok := t[e.HardTo]; !ok || te.Kind != KFile || te.HardTo != "" {
+			continue
+		}
+		full := filepath.Join(dir, filepath.FromSlash(p))
+		if err := os.Remove(full); err != nil {
+			return err
+		}
+		if err := os.Link(filepath.Join(dir, filepath.FromSlash(e.HardTo)), full); err != nil {
+			return err
 		}
 	}
 	return nil
@@ -185,6 +212,8 @@ func Snapshot(dir string) (*Snap, error) {
 				return lerr
 			}
 			s.Tree[rel] = &Entry{Kind: KLink, Dest: d}
+		case fi.Mode()&os.ModeNamedPipe != 0:
+			s.Tree[rel] = &Entry{Kind: KFifo}
 		case fi.Mode().IsRegular():
 			b, rerr := os.ReadFile(p)
 			if rerr != nil {
